@@ -522,4 +522,11 @@ theorem probing_rest_end_to_end_closed (combine : Nat → Word → Nat) (a : Arp
   rw [hp, (KV.Left.fullScore_sim (Table.build a) _ st w).1]
   exact KV.C01.fullScore_prob a ok.wf (fun _ => false) h st sf w hw
 
+/-- **`probing_rest_is_maxRest`** — the rest function proved for the built structure is `KV.Left.maxRest (Table.build a) Sf`,
+the definition of `MaxRestBuild`'s rest costs C08 works with (maximum of `prob` over the entry and all table entries having it
+as a reversed prefix) -/
+theorem probing_rest_is_maxRest (a : Arpa) (wf : WellFormed a) (Sf : List Key) (f : Final a Sf) (g : Key)
+    (hg : (Table.build a).lookup g ≠ none) : restOf a Sf g = KV.Left.maxRest (Table.build a) Sf g :=
+  restOf_eq_maxRest a wf Sf f g hg
+
 end KV.C03ProbingBuild
